@@ -2815,3 +2815,96 @@ func runC05Retagged(c *CaseCtx, r *rand.Rand) (res CaseResult) {
 	res.Sample = map[string]interface{}{"case": res.Key, "history": strings.Join(hist, " ; ")}
 	return res
 }
+
+// ---------------------------------------------------------------------------
+// C12: a shared function with MANY default options, called concurrently with
+// FEW call-time options
+// ---------------------------------------------------------------------------
+
+// runC12FewCallOptions: a shared target func(T0, T1, T2) string carries D
+// default options (D = 0..14: constant T1/T2 values and repeated names), so
+// that the library's own copy of the defaults has whatever spare capacity D
+// gives it; 8-16 goroutines call it with only k = 1..3 call-time options
+// (their own values). Every call must see its own values (for the parameters
+// it passes) and the defaults (for the others), and the race detector must
+// stay silent: combining defaults and call-time options must not write into
+// storage that calls share.
+func runC12FewCallOptions(c *CaseCtx, r *rand.Rand) (res CaseResult) {
+	res.NonTrivial = true
+	q := c.Idx / 35
+	pads := q % 13
+	k := 1 + (q/13)%3
+	res.Key = fmt.Sprintf("few-call-options pads=%d k=%d", pads, k)
+	res.obs("family.few-call-options", 1)
+	det := map[string]interface{}{"case": res.Key}
+	old := runtime.GOMAXPROCS(16)
+	defer runtime.GOMAXPROCS(old)
+	defs := []am.Arg{am.Typed(T1{ID: -11}), am.Typed(T2{ID: -12})}
+	for i := 0; i < pads; i++ {
+		defs = append(defs, am.FuncName("shared-target"))
+	}
+	r.Shuffle(len(defs), func(i, j int) { defs[i], defs[j] = defs[j], defs[i] })
+	target, err := am.NewFunc(func(a T0, b T1, c T2) string { return fmt.Sprintf("%d/%d/%d", a.ID, b.ID, c.ID) }, defs...)
+	if err != nil {
+		res.Skip = "newfunc"
+		return res
+	}
+	res.max("max_default_options_of_the_shared_target", int64(len(defs)))
+	G, per := 8+r.Intn(9), tierReps(c.Tier, 150, 400)
+	var wg sync.WaitGroup
+	var mu sync.Mutex
+	bad, first := 0, ""
+	start := make(chan struct{})
+	for g := 0; g < G; g++ {
+		wg.Add(1)
+		go func(g int) {
+			defer wg.Done()
+			defer func() {
+				if p := recover(); p != nil {
+					mu.Lock()
+					bad++
+					if first == "" {
+						first = fmt.Sprintf("panic: %v", p)
+					}
+					mu.Unlock()
+				}
+			}()
+			<-start
+			for n := 0; n < per; n++ {
+				id := int64(g*1000000 + n*10 + 1)
+				args := []am.Arg{am.Typed(T0{ID: id})}
+				want := []int64{id, -11, -12}
+				if k >= 2 {
+					args = append(args, am.Typed(T1{ID: id + 1}))
+					want[1] = id + 1
+				}
+				if k >= 3 {
+					args = append(args, am.Typed(T2{ID: id + 2}))
+					want[2] = id + 2
+				}
+				rr := target.Call(args...)
+				got := ""
+				if rr.Err() == nil && rr.Len() == 1 {
+					got, _ = rr.Out(0).(string)
+				}
+				if exp := fmt.Sprintf("%d/%d/%d", want[0], want[1], want[2]); got != exp {
+					mu.Lock()
+					bad++
+					if first == "" {
+						first = fmt.Sprintf("call with own values #%d returned %q (err %v), sequentially it returns %q", id, got, rr.Err(), exp)
+					}
+					mu.Unlock()
+				}
+			}
+		}(g)
+	}
+	close(start)
+	wg.Wait()
+	res.Evals += G * per
+	res.obs("concurrent_operations", int64(G*per))
+	if bad > 0 {
+		res.violate("C12", "concurrent-outcome-differs", fmt.Sprintf("%d of %d concurrent calls of a shared function with %d default options and %d call-time option(s) returned an outcome no sequential execution of that call returns; first: %s", bad, G*per, len(defs), k, first), det)
+	}
+	res.Sample = det
+	return res
+}
